@@ -21,7 +21,7 @@ import (
 var ed448Order = new(big.Int).Sub(kit.Pow2(446), kit.Hex("8335dc163bb124b65129c96fde933d8d723a70aadc873d6d54a7bb0d"))
 
 func gFrom(v *big.Int) (s goldilocks.Scalar) { copy(s[:], vlib.LE(v, goldilocks.ScalarSize)); return }
-func gTo(s *goldilocks.Scalar) *big.Int     { return vlib.FromLE(s[:]) }
+func gTo(s *goldilocks.Scalar) *big.Int      { return vlib.FromLE(s[:]) }
 
 func TestC12GoldilocksScalar(t *testing.T) {
 	defer vlib.Done()
